@@ -57,7 +57,9 @@ def intended(nfill, history, keep):
 def run_one(args):
     nfill, keep, cut, history = args[:4]
     cut2 = args[4] if len(args) > 4 else None
-    cfg = edev.base_config(hold=30, routes=filler(nfill), extra=('group-updates false;' + ('' if keep else ' adj-rib-out false;')))
+    grouped = keep == 'grouped'   # adj-rib-out kept, routes with equal attributes share an UPDATE
+    keep = bool(keep)
+    cfg = edev.base_config(hold=30, routes=filler(nfill), extra=(('group-updates true;' if grouped else 'group-updates false;') + ('' if keep else ' adj-rib-out false;')))
     viols = []
     with World(cfg) as wd:
         env = c05.Env(wd, hold=30, script=[], config_name='active')
@@ -249,14 +251,15 @@ def plan(tier):
     jobs = []
     if tier == 'quick':
         for nfill in (0, 23, 24):   # batch of 2, 25 and 26 routes (+ EORs)
-            for keep in (True, False):
+            for keep in (True, False, 'grouped'):
                 for cut in cuts(nfill):
                     jobs.append((nfill, keep, cut, ()))
         for h in histories(2):
             if not h or any(p == 'down2' for p, _ in h):
                 continue
-            for cut in (('eof', 0), ('tx', 3), ('tx', 1)):
+            for cut in (('eof', 0), ('rst', 0), ('tx', 0), ('tx', 1), ('tx', 2), ('tx', 3), ('tx', 4)):
                 jobs.append((0, True, cut, h))
+            jobs.append((0, 'grouped', ('tx', 3), h))
         for h in histories(1):
             if h and h[0][0] != 'down2':
                 jobs.append((0, False, ('eof', 0), h))
@@ -265,9 +268,11 @@ def plan(tier):
         for ops in itertools.product(ops3, repeat=3):
             for phases in (('down', 'down', 'down2'), ('down', 'down2', 'down2'), ('down', 'down', 'down'), ('down2', 'down2', 'down2')):
                 jobs.append((0, True, ('eof', 0), tuple(zip(phases, ops)), ('tx', 1)))
+            # the second session is lost in the middle of its own initial batch (OPEN, KEEPALIVE, two UPDATEs written)
+            jobs.append((0, True, ('eof', 0), tuple(zip(('down', 'down', 'down2'), ops)), ('tx', 4)))
     else:
         for nfill in (0, 22, 23, 24, 49):
-            for keep in (True, False):
+            for keep in (True, False, 'grouped'):
                 for cut in cuts(nfill):
                     for h in histories(1):
                         if not any(p == 'down2' for p, _ in h):
@@ -278,14 +283,14 @@ def plan(tier):
                     jobs.append((0, True, cut, h))
         for h in histories(3):
             if len(h) == 3 and all(p in ('down', 'down2') for p, _ in h):
-                for cut2 in (('tx', 1), ('tx', 2), ('tx', 0)):
+                for cut2 in (('tx', 1), ('tx', 2), ('tx', 0), ('tx', 3), ('tx', 4)):
                     jobs.append((0, True, ('eof', 0), h, cut2))
     return jobs
 
 
 def run(ctx: core.Ctx) -> None:
     jobs = plan(ctx.tier)
-    ctx.rule = ('crash points: EOF, RST, and a write budget of k messages for every k from 0 to past the end of the initial batch (batches of 2, 25, 26 messages; thorough also 24, 51), adj-rib-out kept or not; '
+    ctx.rule = ('crash points: EOF, RST, and a write budget of k messages for every k from 0 to past the end of the initial batch (batches of 2, 25, 26 messages; thorough also 24, 51), adj-rib-out kept (with and without group-updates) or not; '
                 'histories: every phase-ordered sequence of <= 2 (thorough 3) API operations {re-announce configured prefix with new attributes, announce/withdraw an API prefix (v4, v6), withdraw a configured prefix} '
                 'placed before the cut / while down / at re-establishment; non-trivial = distinct (final table size, EOR set, message count) outcome')
     ctx.assumptions += ['reference peer table vt/ref/wire.PeerTable', 'a lost connection = EOF/RST on read or every further write failing']
